@@ -132,7 +132,8 @@ def c07(chk, opts):
     _report(chk, events, bad, ["eval-keys"], "per-key hands")
     for i in (3, 70000, len(events) // 2 + 77):
         chk.sample(events[i])
-    s, mm = _sweep(chk, 1, "ty")
+    # thorough: 80 orders per set, i.e. more than 2^29 evaluations on every sweep thread (counters that wrap after many calls)
+    s, mm = _sweep(chk, 80 if thorough else 1, "ty")
     chk.note("sweep: hand_type() on all %d sets, %d category mismatches against the TLC-exported categories" % (s["sets"], s["ty_mismatch"]))
     if s["ty_mismatch"]:
         r2, ev2, bad2 = validate_independent(chk, "TraceEval", mm, "TraceEval(sweep mismatches)", cfg="TraceEvalC07.cfg", heap="8g")
